@@ -19,6 +19,7 @@
 import Acra.Py.Struct
 import Acra.Py.Operand
 import Acra.Gen.AFDX
+import Acra.Gen.EqGuard
 import Acra.Model.Net
 namespace Acra.Model.AFDX
 open Acra.Py Acra.Gen.AFDX
@@ -143,8 +144,9 @@ def AFDX.eqLoop (a b : AFDX) : List String → R Bool
 /-- `AFDX.__eq__(self, other)` for an AFDX operand: the attribute list is the one found in the source -/
 def AFDX.eq (a b : AFDX) : R Bool := AFDX.eqLoop a b AFDX_EQ_ATTRS
 
-/-- `self == other` for any operand: `if not isinstance(other, AFDX): return False` comes first -/
+/-- `self == other` for any operand: `if not isinstance(other, AFDX): return False` comes first
+    (`Gen.EqGuard.guarded_AFDX`: read from the source on every run) -/
 def AFDX.eqOp (a : AFDX) : Operand AFDX → R Bool :=
-  Operand.guarded AFDX.eq a
+  Operand.opening Acra.Gen.EqGuard.guarded_AFDX AFDX.eq a
 
 end Acra.Model.AFDX
